@@ -420,6 +420,16 @@ def check_pair_order(facts, rep):
             if isinstance(y, tuple) and y and y[0] == 'tuple' and len(y[1]) == 2:
                 tup = y
                 break
+            # a.ok().zip(b.ok()): the pair (a, b) when both parsed
+            if isinstance(y, tuple) and y and y[0] == 'call' and y[1].split('::')[-1] == 'zip' and 'Option' in y[1] and len(y[2]) == 2:
+                ab = []
+                for z in y[2]:
+                    z = strip(z)
+                    if z[0] == 'call' and z[1].split('::')[-1] == 'ok' and len(z[2]) == 1:
+                        ab.append(z[2][0])
+                if len(ab) == 2:
+                    tup = ('tuple', tuple(ab))
+                    break
         if tup is None:
             unknown.append(s[:80])
             continue
